@@ -3,9 +3,10 @@
    after a line feed it is back in its initial mode (indentation counters zero, next line
    starting right after the LF), and for EVERY A (newline-terminated) and B the tables of
    A + blank line + B are the tables of A followed by the tables of B moved by len A + 1
-   (C07_tables_concat): the block loop starts B on exactly the rows it would see alone.  That no rule leaks container context, tight flags or parentType
-   into the next top-level block is decided on the implementation (concatenation law) and
-   through the correspondence.  Only statements and [exact]. *)
+   (C07_tables_concat): the block loop starts B on exactly the rows it would see alone.  No rule call leaks container context:
+   blkIndent, listIndent and the level come back from every rule call whatever its outcome
+   (C07_rule_restores_context, C07_rule_restores_level; the tables: C01).  That the full
+   concatenation law follows is decided on the implementation and through the correspondence.  Only statements and [exact]. *)
 From MD Require Import Base.Py Base.Str Base.Opt Model.Token Model.Utils Model.StateBlock Model.Block
      Lemmas.BlockLemmas Lemmas.ScanLemmas.
 
@@ -41,3 +42,37 @@ Theorem C07_tables_concat :
     /\ b_lineMax s = b_lineMax sa + 1 + b_lineMax sb.
 Proof. exact tables_concat. Qed.
 Print Assumptions C07_tables_concat.
+
+(* ---- no container context leaks from one block into the next ------------------------------------ *)
+From MD Require Import Model.Block Lemmas.MapWhole Lemmas.BlockWF Lemmas.CtxRestore.
+
+(* One rule call from the line loop - any rule name, successful or not, silent or not, with the
+   nested tokenize at any depth as its callback: blkIndent and listIndent come back exactly as they
+   were.  (The five line tables, lineMax and src come back too: C01_nested_tokenize_restores_tables;
+   the nesting level: C02_block_stream_balanced.)  What a block leaves behind is tokens, the
+   cursor, env, the tight flag - recomputed in every iteration - and parentType. *)
+Theorem C07_rule_restores_context :
+  forall cfg rf cf, silent_terms cfg ->
+  forall d n st sl el silent b st',
+  apply_rule cfg rf cf (tokenize cfg rf cf d) (terminated cfg rf cf) n st sl el silent = Ok (b, st') ->
+  b_blkIndent st' = b_blkIndent st /\ b_listIndent st' = b_listIndent st.
+Proof. exact rule_restores_context. Qed.
+Print Assumptions C07_rule_restores_context.
+
+(* the block loop itself, at any depth (so also: the whole document ends with the context it began with) *)
+Theorem C07_tokenize_restores_context :
+  forall cfg rf cf, silent_terms cfg -> forall d s a b s',
+  tokenize cfg rf cf d s a b = Ok s' -> b_blkIndent s' = b_blkIndent s /\ b_listIndent s' = b_listIndent s.
+Proof. exact tokenize_x. Qed.
+Print Assumptions C07_tokenize_restores_context.
+
+(* ... and the nesting level *)
+Theorem C07_rule_restores_level :
+  forall cfg rf cf d n st sl el silent b st',
+  apply_rule cfg rf cf (tokenize cfg rf cf d) (terminated cfg rf cf) n st sl el silent = Ok (b, st') ->
+  b_level st' = b_level st.
+Proof.
+  intros cfg rf cf d n st sl el silent b st' H.
+  exact (proj1 (apply_rule_ext cfg rf cf _ _ (tokenize_ok cfg rf cf d) (terminated_ok cfg rf cf) _ _ _ _ _ _ _ H)).
+Qed.
+Print Assumptions C07_rule_restores_level.
